@@ -6,6 +6,39 @@
   are nondeterministic), for every configuration: any number of hashers, any queue capacity, any
   item list, fault plan and callback.  `Reachable cfg s` = some label sequence leads from
   `init cfg` to `s`, i.e. every schedule and every timing is covered.
+
+  Proof: an inductive invariant, checked step by step (Lemmas/Pipeline*.lean).
+  * `InvA` (PipelineCons; every cfg): the pieces in flight (`seen ++ hq ++ held ++ pq`) are a
+    permutation of `range n`, `n` = their number = the reader's position while it is `putting`;
+    nothing is in flight before the reader begins; `n ≤ #items`, and `n = #items` once an
+    unstopped, fault-free reader has left its loop; main's pending exception is never the
+    duplicate-assertion or an IndexError; `collected = seen.filter isHashed`; hashers at or
+    above main's start position are `notStarted`.
+  With `cfg.refuse = []` (`Inv` = `InvA ∧ InvB1 ∧ InvB2 ∧ InvB3`, PipelineInv):
+  * `InvB1` (PipelineCtl): `hs.length = N`, `tracked.length ≤ N`, nothing is `refused`; the reader
+    is `notStarted` iff main is before `startReader`; hashers below main's start position are
+    started; the janitor is `notStarted` iff main is before/at `startJanitor`, and then
+    `tracked = range N`; after `reader.join()` the reader is `done`.
+  * `InvB2` (PipelineSent): while the reader is not `done` there is no sentinel in `pq`, no
+    hasher at `requeue`/`setEv`, and `fin = false`; once it is `done` a sentinel is in `pq` or a
+    hasher is at `requeue`; a hasher at `requeue` ⇒ `pq = []` (so re-queueing never blocks) and
+    it is the only one; a sentinel can only be the last element of `pq`; `fin` or a hasher at
+    `setEv` ⇒ `pq` holds sentinels only; hasher 0 `done` ⇒ `fin` (the vital hasher only leaves
+    through `setEv`).
+  * `InvB3` (PipelineJan): every running hasher is in `tracked`; `prune`/`spin` lists are
+    non-empty and no longer than N; `spin rest` ⇒ `fin` and every running tracked hasher is
+    still in `rest`; janitor `closing`/`done` ⇒ `fin` and no hasher is running; main `finished`
+    ⇒ janitor `done`; janitor `done` and main still collecting ⇒ the sentinel is in `hq`; the
+    sentinel is in `hq` only if the janitor is `done`, and only as the last element.
+  With `noFaults` and a passive callback additionally
+  * `InvC` (PipelineOut): `rexc = false`; while main has not left the collect loop, `stop = false`
+    and no seen piece raises; main's join phase without pending exception ⇒ `seen` is a
+    permutation of all pieces and none raises; a pending exception is `.item k` of a raising
+    piece `k`; a returned result is `collected`.
+  Deadlock freedom (PipelineProg, PipelineLive) is a case split on main's program point; when main
+  is blocked, `workers_progress` finds a hasher or the reader that can move (the vital hasher
+  is alive as long as the reader runs; a full queue has a taker), and when the reader and all
+  hashers are done the event is set and the janitor reaches a progress step within its round.
 -/
 import Torf.Lemmas.PipelineLive
 import Torf.Lemmas.PipelineOut
